@@ -38,12 +38,13 @@ KF_DOGLEG = 'C05-antimeridian-split-at-start-latitude'
 
 def plan(tier, seed):
     per = 250 if tier == 'quick' else 2500
-    return [{'seed': seed * 1000 + i, 'n': per} for i in range(16)]
+    return [{'seed': seed * 1000 + i, 'n': per} for i in range(16)] + \
+        [{'seed': seed * 1000 + 77, 'n': 0, 'huge': 70000 if tier == 'quick' else 200000}]
 
 
 def required(tier):
     from vlib.gridwork import KINDS
-    cl = [f'geom:{k}' for k in KINDS] + ['axes:alt+time', 'axes:', 'segment:antimeridian',
+    cl = [f'geom:{k}' for k in KINDS] + ['trajectory:more-than-65536-points', 'axes:alt+time', 'axes:', 'segment:antimeridian',
                                          'segment:multi-cell', 'alt-cell', 'time-cell',
                                          'state-values']
     return {'classes': cl, 'counters': {'cell_share_comparisons': 2000}, 'evaluations': 800}
@@ -76,6 +77,10 @@ def judge(c, rec, Mismatch, case):
         rec.ev()
         if not pcs:
             raise Mismatch('a segment produced no piece at all', det)
+        if 0.0 < seg_len < 1e-7:
+            # fewer than ~30 coordinate quanta long: the sampling oracle cannot resolve it
+            rec.cls('segment:below-oracle-resolution')
+            continue
         # ---- altitude / time cell and state values of the segment's start point -----------
         for p in pcs:
             if c.alt_g is not None:
@@ -118,6 +123,8 @@ def judge(c, rec, Mismatch, case):
             if not got_order or got_order[-1] != cell:
                 got_order.append(cell)
         worst = None
+        micro = False
+        cnoise = gw.crossing_noise(c.lats[s], c.lons[s], c.lats[s + 1], c.lons[s + 1])
         chord_shares = gw.sample_segment.chord_shares
         for cell in set(got) | set(shares):
             g, w = got.get(cell, 0.0), shares.get(cell, 0.0)
@@ -126,6 +133,10 @@ def judge(c, rec, Mismatch, case):
             # great-circle chord of the stay in the cell (wc, what the code measures): the
             # difference between the two readings is part of the tolerance
             tau = 2.0 / M + 1e-4 + 0.005 * max(g, w) + abs(w - wc)
+            if 0.0 < seg_len < 1e-2:          # coordinate quantisation (about 3e-9 m)
+                tau += min(0.3, 8 * 3e-9 / seg_len)
+                micro = True
+            tau += cnoise
             rec.count('cell_share_comparisons')
             if abs(g - w) > tau and (worst is None or abs(g - w) > worst[0]):
                 worst = (abs(g - w), cell, g, w, tau)
@@ -200,6 +211,17 @@ def dogleg_explains(c, s, got, M, gw):
 def run_shard(spec, rec):
     from vlib import gridwork as gw
     from vlib.storeops import Mismatch
+
+    if 'huge' in spec:
+        probs, desc = gw.huge_track(random.Random(f"huge-{spec['seed']}"), spec['huge'])
+        rec.ev(spec['huge'])
+        rec.count('points_in_longest_trajectory', spec['huge'])
+        mine = [pr for pr in probs if any(w in pr[0] for w in ('does not contain', 'lengths', 'raised', 'no piece'))]
+        for mech, det in mine[:1]:
+            rec.violation(mech, det, {'spec': dict(spec), 'k': 'huge'})
+        if not mine:
+            rec.cls('trajectory:more-than-65536-points')
+        return
 
     M = 2000 if spec.get('tier') == 'quick' else 20000
     ks = [spec['only']] if 'only' in spec else range(spec['n'])
